@@ -293,12 +293,15 @@ class Prov:
                     out.add((f"unknown:def@{type(st).__name__}",))
         ckey = ("content", name)
         if name in self._content and ckey not in seen and not (self.f.is_method and name == self.f.self_name):
+            mine = self.rd.defs_reaching(at, name)
             for meth, arg in self._content[name]:
                 try:
                     an = self.node_of(arg)
                 except KeyError:
                     continue
-                out |= self._ext(self._trace(arg, an, seen | {ckey}, depth + 1), f"in:{meth}")
+                if mine and not (self.rd.defs_reaching(an, name) & mine):
+                    continue  # the store goes into another object that merely had the same variable name
+                out |= self._ext(self._trace(arg, an, seen | {ckey}, depth + 1), f"in:{meth}@{name}")
         if len(out) > MAXPATHS:
             out = set(sorted(out)[:MAXPATHS])
         return out
